@@ -122,9 +122,13 @@ def collect(props):
             continue
         m = json.load(open(meta))
         prop = m.get("property")
-        if props and prop not in props:
+        cps = m.get("check_properties") or [prop]
+        if props and not (set(cps) | {prop}) & set(props):
             continue
-        items.append((prop, "seeded", pf, m.get("expect_rules", [])))
+        # a seeded mutant may be reported by the check of a neighbouring property (recorded in meta.check_properties)
+        for cp in cps:
+            if not props or cp in props or prop in props:
+                items.append((cp, "seeded", pf, m.get("expect_rules", [])))
     return items
 
 
